@@ -163,6 +163,19 @@ class Boom(Exception):
     """raised by the harness inside a squash_changes block"""
 
 
+class BoomBase(BaseException):
+    """the same, but not an Exception (as KeyboardInterrupt, SystemExit, asyncio.CancelledError are not): a block left by
+    one of these is left by an exception all the same"""
+
+
+BOOMS = (Boom, BoomBase)
+
+
+def boom(selector):
+    """the exception a harness-aborted block is left by; alternates between the two kinds, determined by the case"""
+    return BoomBase() if selector % 2 else Boom()
+
+
 class WriteFailed(Exception):
     """raised by FailingDict.__setitem__"""
 
@@ -213,7 +226,7 @@ class HexRunner:
         try:
             fn()
             out = "ok"
-        except Boom:
+        except BOOMS:
             raise
         except Exception as e:  # noqa
             out = fmt_exc(e)
@@ -315,18 +328,19 @@ class HexRunner:
             with self.trie.squash_changes() as b:
                 for i, op in enumerate(inner):
                     if raise_at is not None and i == raise_at:
-                        raise Boom()
+                        raise boom(len(inner))
                     self.simple("b", b, bmodel, op)
                     if self.observe:
                         self.observe(self, "b", b, bmodel)
                 if raise_at is not None:
-                    raise Boom()
+                    raise boom(len(inner))
                 if kind == "failcommit":
                     self.res.emit("hx.failafter %d" % exit_kind[1], "ok")
                     self.db.fail_after = exit_kind[1]
-        except Boom:
+        except BOOMS as e:
             self.res.emit("hx.bend 1", "ok")
             outcome = "aborted"
+            self.res.tags.add("abort-by:" + type(e).__name__)
         except WriteFailed:
             self.res.emit("hx.bend 0", "exn WriteFailed")
             outcome = "commit-failed"
